@@ -66,7 +66,7 @@ CHECKS = {
    "bounded-exhaustive mutation enumeration of valid packets and NDL files fed to the real decoders/parser, plus crafted frames injected into a running full stack under the schedule explorer",
    "Every truncation, every byte value at every position, structural-field pairs, 2-byte prefixes and extreme length products of valid seed packets go through the six real decoders; every truncation, token/character/line edit and every token string of length <= 4 goes through the real NDL parser; 38 crafted frames (outer layers valid, one layer malformed) are injected into a network carrying an established TCP stream, a UDP listener, DHCP client/server, DNS server and an ARP router: nothing may unwind, the malformed frame reaches no application, the stream still delivers its next write and a following valid datagram arrives.",
    "Alphabets are listed in the evidence; only valid UTF-8 texts are given to the NDL parser (the statement quantifies over texts).", "6 C14"),
- "C15": (True, "E1 + E3 (generator), E2 (DHCP)", "model_checking",
+ "C15": (True, "E1 + E3 (generator), E2 (DHCP), E4 (loom, concurrent Discovers)", "model_checking",
    "explicit-state BFS over the real IpGenerator against a two-bitset reference + deviation-bounded schedule/duplication search over real DhcpServer/DhcpClient",
    "Every sequence of fetch_ip/fetch_net/return/block operations over small windows at both ends of the address space is executed on the real generator and compared with a reference after every step; constructors are enumerated over all ranges and masks. N clients against a pool of N (N = 1..3) start simultaneously under frame duplication/delay and task-order deviations: leases are pairwise distinct, inside the pool, equal to the acknowledged address, and a released address is leased to a late client.",
    "Windows of <= 10 addresses reach a fixpoint, 16-address windows are depth-bounded; availability after a duplicated DISCOVER (which burns an offer) is not judged.", "6 C15"),
